@@ -29,6 +29,7 @@ MAP = [
     ("byte-wise comparison included alignment padding", "C13,C14", "K2 <u8, AlignAs<u8,4>>: equal elements/vectors in differently filled memory compared unequal, a < a"),
     ("vector == on the memcmp path ignored element count and fixed sizes", "C13", "K19 <FixedSize<u8>>: [(0)(0)] with fixed size 1 == [(0,0)] with fixed size 2; K20: (1,2) against (2,1) (side remark of the sub-agent that seeded C13-r3)"),
     ("vector < on the memcmp path ignored differing fixed sizes", "C14", "K19: [(0)(0)] (fixed size 1) < [(0,0)] (fixed size 2) was false although (0) < (0,0)"),
+    ("element == compared several FixedSize parameters as one byte run", "C13", "K20 <FixedSize<u8>, FixedSize<u8>>: ([0],[0,0]) == ([0,0],[0]) between vectors with fixed sizes (1,2) and (2,1); K24 <FixedSize<u8>, u8, VaryingSize<u8>>: ([0],1,[0]) == ([0,1],0,[])"),
     ("emplace_back memcpy'd sources whose conversion", "C15", "bool <- u8 (stored byte 02), Conv <- int (converting constructor skipped), int <- Src (conversion operator skipped)"),
     ("the vector iterators were not default constructible", "C20,C11", "probe cell 'iterator default construction' for every list"),
     ("structured bindings of a ContiguousElement did not compile", "C20", "probe cell 'structured bindings of an element' for every list with 2 or 3 parameters"),
